@@ -512,6 +512,12 @@ class Evaluator:
                 idxs = self.eval(tgt.slice, state, func)
                 k = idxs[0][1] if len(idxs) == 1 else unknown("subscript-index", line)
                 state.env[base.id] = self._add_effect(cur, ("setitem", k, v))
+            elif isinstance(base, ast.Attribute) and isinstance(base.value, ast.Name) and base.value.id in state.env:
+                # x.attr[k] = v  on a local value: recorded as an effect on x
+                cur = state.env[base.value.id]
+                idxs = self.eval(tgt.slice, state, func)
+                k = idxs[0][1] if len(idxs) == 1 else unknown("subscript-index", line)
+                state.env[base.value.id] = self._add_effect(cur, ("setitem-attr", base.attr, k, v))
             else:
                 state.notes = state.notes + (("external-store", unparse(tgt), line),)
         else:
